@@ -50,6 +50,7 @@ def impl_fn(case):
         m.load_patient_data(uni_table(case), mapping=lambda raw: STAGE_INT[tmap(raw)])
         case = {**case, "query_t": STAGE_INT[case["query_t"]]}
     else:
+        impl.prime_twin_relisted(case)       # (R5-C01: a cross-instance cache keyed on a listing-insensitive graph hash)
         m = impl.build_uni(case)
         m.load_patient_data(uni_table(case))
     q0 = lambda mm: (mm.likelihood(), mm.diagnosis_matrix(case["query_t"]), mm.data_matrix(case["query_t"]))  # noqa: E731
